@@ -53,7 +53,12 @@ CONSTANTS Jobs,       \* the case spaces explored by this run: a set of Job(...)
 \*   dodel    TRUE: after the members are known, one `del cls[name]` is applied (every class x name) and the
 \*            inherited members are computed again
 Job(name, n, maxb, domain, mem, layouts) ==
-  [name |-> name, n |-> n, maxb |-> maxb, domain |-> domain, mem |-> mem, layouts |-> layouts, dodel |-> FALSE, roots |-> "all"]
+  [name |-> name, n |-> n, maxb |-> maxb, domain |-> domain, mem |-> mem, layouts |-> layouts, dodel |-> FALSE, roots |-> "all",
+   kinds |-> {"def"}]
+\* kinds: how a class body may bind a member name.  "def": an assignment / a def.  "imp": an import statement in the class
+\* body (`from string import digits as m1`).  For CPython both put the name into the class namespace: it is found through
+\* the MRO and hides the same name of farther bases.  For Griffe the member is an Alias (is_imported) in base.members.
+ImportJob(name, n, maxb, domain, mem, layouts) == [Job(name, n, maxb, domain, mem, layouts) EXCEPT !.kinds = {"def", "imp"}]
 \* roots = "last": only the last class is run through the machine (its sub-hierarchies on classes 1..n-1 are exactly the
 \* hierarchies of the job with one class less, where every class is run); the reference is still computed for every class
 LastRootJob(name, n, maxb, domain, mem, layouts) == [Job(name, n, maxb, domain, mem, layouts) EXCEPT !.roots = "last"]
@@ -77,7 +82,8 @@ QuickJobs ==
     Job("spell3", 3, 3, "dag", {"m1"}, Spell),      \* 10 x (1 + 2) x 8
     DelJob("del3", 3, 3, "dag", {"m1"}, One),       \* 10 x 8 x 3 deletions
     Job("ext3", 3, 3, "ext", {"m1"}, One),          \* 160 hierarchies with unresolvable bases x 8
-    Job("ext4", 4, 2, "ext", {}, One) }             \* 1 700 (<= 2 bases), orders only
+    Job("ext4", 4, 2, "ext", {}, One),              \* 1 700 (<= 2 bases), orders only
+    ImportJob("imp3", 3, 3, "dag", {"m1"}, One) }   \* 10 x 27 (absent / defined / imported per class)
 \* thorough: one TLC run per job (the driver replays a job while TLC explores the next one)
 T_dag5 == { Job("dag5", 5, 3, "dag", {"m1"}, One) }                  \* 6 560 hierarchies x 32 placements
 T_dag4 == { Job("dag4", 4, 3, "dag", {"m1", "m2"}, One) }            \* 160 x 256
@@ -89,11 +95,13 @@ T_splitfree3 == { Job("splitfree3", 3, 2, "free", {"m1"}, Split) }   \* 3 430 x 
 T_spell4 == { Job("spell4", 4, 3, "dag", {"m1"}, Spell) }            \* 160 x 4 x 16
 T_del4 == { DelJob("del4", 4, 3, "dag", {"m1"}, One) }               \* 160 x 16 x 4 deletions
 T_ext4 == { Job("ext4", 4, 3, "ext", {"m1"}, One) }                   \* 6 560 x 16
-ThoroughJobs == T_ext4 \cup T_dag5 \cup T_dag4 \cup T_free3 \cup T_free4 \cup T_self3 \cup T_split4 \cup T_splitfree3 \cup T_spell4 \cup T_del4
+T_imp4 == { ImportJob("imp4", 4, 3, "dag", {"m1"}, One) }             \* 160 x 81
+T_imp3 == { ImportJob("imp3", 3, 3, "dag", {"m1", "m2"}, One) }       \* 10 x 729
+ThoroughJobs == T_imp4 \cup T_imp3 \cup T_ext4 \cup T_dag5 \cup T_dag4 \cup T_free3 \cup T_free4 \cup T_self3 \cup T_split4 \cup T_splitfree3 \cup T_spell4 \cup T_del4
 SimJobs == { Job("sim6", 6, 3, "dag", {"m1"}, One) }   \* 564 160 hierarchies: sampled with -simulate
 TinyJobs == { Job("dag3", 3, 3, "dag", {"m1"}, One), Job("free2", 2, 2, "free", {"m1"}, Split),
               Job("spell3", 3, 3, "dag", {"m1"}, Spell), DelJob("del2", 2, 3, "dag", {"m1"}, One),
-              Job("ext3", 3, 3, "ext", {"m1"}, One) }
+              Job("ext3", 3, 3, "ext", {"m1"}, One), ImportJob("imp2", 2, 3, "dag", {"m1"}, One) }
 
 VARIABLE job          \* the job this behaviour belongs to (chosen by Init, never changes)
 N == job.n
@@ -120,11 +128,12 @@ VARIABLES bases, layout, cut,                    \* the case
           root, stack, exc, mro,                 \* Class.mro machine; mro[c] = result of C<c>.mro()
           refmro, refext, refcyc,                \* reference, stored once (TLC does not memoise operators)
           ic, folding, rev, inh, allm, refattr,  \* inherited_members / all_members machine
-          delop                                  \* the `del cls[name]` applied (jobs with dodel), else NoDel
+          delop,                                 \* the `del cls[name]` applied (jobs with dodel), else NoDel
+          kind                                   \* kind[c][m]: how class c binds m ("def" / "imp"; "def" when it does not)
 casevars == <<job, bases, layout, cut>>
 mrovars == <<root, stack, exc, mro>>
 refvars == <<refmro, refext, refcyc>>
-memvars == <<has, ic, folding, rev, inh, allm, refattr, delop>>
+memvars == <<has, ic, folding, rev, inh, allm, refattr, delop, kind>>
 vars == <<casevars, pc, steps, fired, mrovars, refvars, memvars>>
 
 \* ---- case space ------------------------------------------------------------------------------------
@@ -241,6 +250,7 @@ Init ==
   /\ allm = [c \in Classes |-> [m \in Mem |-> NoClass]]
   /\ refattr = [c \in Classes |-> [m \in Mem |-> NoClass]]
   /\ delop = NoDel
+  /\ kind = [c \in Classes |-> [m \in Mem |-> "def"]]
 
 Tick(a) == steps' = steps + 1 /\ fired' = fired \cup {a}
 
@@ -354,6 +364,8 @@ MroAllDone ==
 PlaceMembers ==
   /\ pc = "place" /\ Tick("PlaceMembers")
   /\ has' \in [Classes -> SUBSET Mem]
+  /\ kind' \in [Classes -> [Mem -> job.kinds]]
+  /\ \A c \in Classes : \A m \in Mem : m \notin has'[c] => kind'[c][m] = "def"
   /\ pc' = "inh"
   /\ UNCHANGED <<casevars, mrovars, refvars, ic, folding, rev, inh, allm, refattr, delop>>
 
@@ -364,9 +376,10 @@ InheritedStart ==
   /\ IF mro[ic].ok
      THEN /\ folding' = TRUE /\ rev' = Rev(mro[ic].order) /\ ic' = ic       \* reversed(mro)
      ELSE /\ folding' = FALSE /\ rev' = <<>> /\ ic' = ic + 1
-  /\ UNCHANGED <<casevars, pc, mrovars, refvars, has, inh, allm, refattr, delop>>
+  /\ UNCHANGED <<casevars, pc, mrovars, refvars, has, inh, allm, refattr, delop, kind>>
 \*   for base in reversed(mro): for name, member in base.members.items():
 \*       if name not in self.members: inherited_members[name] = Alias(name, member, parent=self, inherited=True)
+\* base.members holds every name bound in the class body, import aliases included (kind[base][m] plays no role here)
 InheritedFold ==
   /\ pc = "inh" /\ folding /\ rev # <<>> /\ Tick("InheritedFold")
   /\ LET base == rev[1] IN
@@ -374,18 +387,18 @@ InheritedFold ==
                 IF m \in has[base] /\ m \notin has[ic]
                 THEN [owner |-> base, parent |-> ic, inherited |-> TRUE] ELSE inh[ic][m]]]
   /\ rev' = Tail(rev)
-  /\ UNCHANGED <<casevars, pc, mrovars, refvars, has, ic, folding, allm, refattr, delop>>
+  /\ UNCHANGED <<casevars, pc, mrovars, refvars, has, ic, folding, allm, refattr, delop, kind>>
 InheritedReturn ==
   /\ pc = "inh" /\ folding /\ rev = <<>> /\ Tick("InheritedReturn")
   /\ folding' = FALSE /\ ic' = ic + 1
-  /\ UNCHANGED <<casevars, pc, mrovars, refvars, has, rev, inh, allm, refattr, delop>>
+  /\ UNCHANGED <<casevars, pc, mrovars, refvars, has, rev, inh, allm, refattr, delop, kind>>
 \* all_members = {**self.inherited_members, **self.members};  __getitem__(name) = all_members[name]
 AllMembers ==
   /\ pc = "inh" /\ ic = N + 1 /\ Tick("AllMembers")
   /\ allm' = [c \in Classes |-> [m \in Mem |-> IF m \in has[c] THEN c ELSE inh[c][m].owner]]
   /\ refattr' = [c \in Classes |-> [m \in Mem |-> PyGetattr(c, m)]]
   /\ pc' = "done"
-  /\ UNCHANGED <<casevars, mrovars, refvars, has, ic, folding, rev, inh, delop>>
+  /\ UNCHANGED <<casevars, mrovars, refvars, has, ic, folding, rev, inh, delop, kind>>
 
 \* DelMembersMixin.__delitem__ (one-part key):
 \*     try: del self.members[name]  except KeyError: del self.inherited_members[name]
@@ -400,7 +413,7 @@ DelItem ==
         /\ has' = [has EXCEPT ![c] = @ \ {m}]
   /\ pc' = "inh" /\ ic' = 1 /\ folding' = FALSE /\ rev' = <<>>
   /\ inh' = [c \in Classes |-> [m \in Mem |-> NoAlias]]
-  /\ UNCHANGED <<casevars, mrovars, refvars, allm, refattr>>
+  /\ UNCHANGED <<casevars, mrovars, refvars, allm, refattr, kind>>
 
 Next == \/ Reference \/ Extension
         \/ CallMro \/ MroEnter \/ MroCycleCheck \/ MroRecurse \/ MergeStart
@@ -460,5 +473,5 @@ EmitCase ==
                               mods |-> [c \in Classes |-> ModOf(c)],
                               views |-> [c \in Classes |-> AliasViews(c)],
                               has |-> has, mro |-> mro, ref |-> refmro, cyc |-> refcyc,
-                              inh |-> inh, attr |-> refattr, delop |-> delop, unfired |-> AllActions \ fired])>>)
+                              inh |-> inh, attr |-> refattr, delop |-> delop, kind |-> kind, unfired |-> AllActions \ fired])>>)
 =============================================================================
